@@ -774,6 +774,7 @@ func c07P2(r *core.R) {
 		case "send":
 			// every receiver of the class must be a range loop in a pipeline goroutine
 			okRecv, n := true, 0
+			early, earlyAt := token.NoPos, (*chanOp)(nil)
 			for _, o2 := range byClass[op.class] {
 				if o2.kind == "recv" || o2.kind == "range" {
 					n++
@@ -783,9 +784,18 @@ func c07P2(r *core.R) {
 					if !o2.u.goroutineOnly() {
 						okRecv = false
 					}
+					if at := m.loopEarlyExit(o2); at != token.NoPos && early == token.NoPos {
+						early, earlyAt = at, o2
+					}
 				}
 			}
-			if okRecv && n > 0 {
+			if okRecv && n > 0 && early != token.NoPos && m.firstSendOnClass(op, byClass[op.class]) && m.loopTakesFirstValue(earlyAt) {
+				r.OK(c, op.pos, "bare send on %s that is the first value sent on the channel (not in a loop, no send on the class before it), and the receiving loop at %s is the first blocking statement of its goroutine: it takes its first value unconditionally, whatever the context's state", op.class, r.P.Rel(earlyAt.pos))
+			} else if okRecv && n > 0 && early != token.NoPos {
+				// the receiving loop does not outlive the sender: it can be left (return / break / goto / panic) while the
+				// channel is still open, after which nobody takes the value and the bare send blocks forever
+				r.Bad(c, op.pos, "bare send on %s, but its receiving loop at %s can be left at %s before the channel is closed: once the receiver has stopped (Close/cancel, an error) the send blocks forever and Close never returns; guard the send with a `<-dec.ctx.Done()` case", op.class, r.P.Rel(earlyAt.pos), r.P.Rel(early))
+			} else if okRecv && n > 0 {
 				r.OK(c, op.pos, "bare send on %s whose only receivers are `for range` loops (or their explicit form `v, ok := <-ch; if !ok { return }`) of worker goroutines that outlive the sender (the sender closes the channel on exit)", op.class)
 			} else {
 				r.Bad(c, op.pos, "bare send on %s is not cancellable and its receivers are not unconditional range loops: it can block forever after Close/cancel", op.class)
